@@ -1813,7 +1813,7 @@ def _gen_schema(r, force=None):
     htxx = s.add_type(CType(tns, 'HTXX', base=htx, method='extension', own_attrs=[AUse(ADecl(None, 'hb', B['int']))]))
     g = s.add_elem(EDecl(tns, 'g', B['int'], glob=True, default='5' if r.random() < 0.5 else None))
     s.add_elem(EDecl(tns, 'z', B['string'], glob=True))
-    h = s.add_elem(EDecl(tns, 'h', ht, glob=True, abstract=r.random() < 0.25,
+    h = s.add_elem(EDecl(tns, 'h', ht, glob=True, abstract=force.get('head', r.random() < 0.25),
                          block=blockset(0.35, ('extension', 'restriction', 'substitution'))))
     m1 = s.add_elem(EDecl(tns, 'm1', htx, glob=True, subst=h, abstract=r.random() < 0.1))
     s.add_elem(EDecl(tns, 'm2', htr, glob=True, subst=h))
@@ -1956,6 +1956,9 @@ def _gen_schema(r, force=None):
         f_items = make_items(['a', 'b', 'c', 'd'], force.get('nitems', r.randint(1, 4)), True, use_all)
         if not f_items:
             f_items = [('e', local_decl('a'))]
+        if force.get('head') and not any(it[0] == 'e' and it[1] is h for it in f_items):
+            f_items.insert(r.randint(0, len(f_items)), ('e', h))
+            tags.add('substitution-head-particle')
         if named and not use_all and r.random() < 0.8:
             x_items = make_items(['e', 'f'], r.randint(1, 2), not any(i[0] == 'wild' for i in f_items))
             x_items = [it for it in x_items if it[0] != 'e' or it[1] not in [j[1] for j in f_items if j[0] == 'e']]
